@@ -6,7 +6,7 @@
    later in the list, a timer may run long after it woke up (also after it was cancelled meanwhile).
    `Inv` (Proofs.v) holds in every reachable state (C10_invariant).  Examples.v (imported so that it is
    re-checked) replays the defects of the code before the fix on variant Legacy. *)
-From CF Require Import Common.Bytes C10.Model C10.Proofs C10.Proofs_b C10.Proofs_c C10.Gen_Drivers C10.Proofs_d C10.Examples.
+From CF Require Import Common.Bytes C10.Model C10.Proofs C10.Proofs_b C10.Proofs_c C10.Examples.
 Open Scope Z_scope.
 
 (* Every reachable state: patterns are distinct keys; each pending pattern has a live (armed or
@@ -140,18 +140,3 @@ Theorem C10_leftover_timers_unobservable : forall evs s s', Inv s -> sim s s' ->
 Proof. exact sim_run. Qed.
 Print Assumptions C10_leftover_timers_unobservable.
 
-(* ---- the link drivers (Gen_Drivers.v is regenerated from cflib/crtp/*.py on every run) ---- *)
-(* The base driver and the radio driver ask for resending (the radio until safelink is confirmed, and for
-   good if it is not); the USB driver, and the radio driver once safelink is confirmed, do not: opening
-   such links / that switch are `reliable_ev` events, so C10_reliable_link_no_retry applies to them. *)
-Theorem C10_driver_flags :
-  drv_default_nr = true /\ drv_radio_initial_nr = true /\ drv_radio_nr_after false = true /\
-  reliable_ev (Open drv_usb_nr) /\ reliable_ev (SetNR (drv_radio_nr_after true)).
-Proof. exact driver_flags. Qed.
-Print Assumptions C10_driver_flags.
-
-Theorem C10_usb_and_safelink_no_retry : forall evs,
-  Forall (fun e => match e with Open n => n = drv_usb_nr | SetNR b => b = drv_radio_nr_after true | _ => True end) evs ->
-  no_retry_state (fst (run Fixed init evs)).
-Proof. exact usb_and_safelink_no_retry. Qed.
-Print Assumptions C10_usb_and_safelink_no_retry.
